@@ -7,6 +7,9 @@
    Rust panic (the `assert!` of set_pixel, an array index out of range).  On representing displays they panic exactly when the
    model does (Panic k) and otherwise yield equal values / representing displays.  Statements only (proofs: Proofs/SrcMock.v). *)
 From EG Require Import Base.Prelude Base.Casts Model.Geometry Gen.MockConsts Model.Mockdisplay Gen.SrcGeometry Gen.SrcMock Proofs.SrcMock.
+(* the generated definitions that cast to usize (`as usize`, `usize::try_from`) take the width of usize as Casts.UsizeW; the model
+   of this property works with 64-bit usize (exact integers in range): taken at that width *)
+#[local] Existing Instance Casts.usize64_w.
 
 Theorem C20_src_SIZE_is_model : src_SIZE = SIZE.
 Proof. exact src_SIZE_eq. Qed.
